@@ -2,7 +2,7 @@
    Statements only; proofs in Proofs/PegEscape.v (on the grammar regenerated from akn.peg). *)
 Require Import BB.Base.Str BB.Base.Dict BB.Model.PegSyntax BB.Model.Peg BB.Model.Types BB.Gen.Grammar.
 Require Import BB.Proofs.Totality BB.Proofs.PegEscape BB.Proofs.EscapedLine BB.Proofs.EscapedHeading BB.Proofs.EscapedNum.
-Require Import BB.Base.Xml BB.Model.Eid BB.Model.EidSpec BB.Model.PreParse BB.Model.XmlGen BB.Model.Convert BB.Gen.TablesParser BB.Gen.TablesLibs BB.Proofs.PlainLineConvert BB.Proofs.HierElement BB.Proofs.HierElementConvert BB.Proofs.HierNoHeading BB.Proofs.HierNoHeadingConvert.
+Require Import BB.Base.Xml BB.Model.Eid BB.Model.EidSpec BB.Model.PreParse BB.Model.XmlGen BB.Model.Convert BB.Gen.TablesParser BB.Gen.TablesLibs BB.Proofs.PlainLineConvert BB.Proofs.HierElement BB.Proofs.HierElementConvert BB.Proofs.HierNoHeading BB.Proofs.HierNoHeadingConvert BB.Proofs.CrossheadingConvert BB.Proofs.CrossheadingRoundTrip.
 
 (* grammar level, for every non-empty string of scalar values without a newline, every position
    and any sufficient fuel: inline+ on the character-by-character escaped string consumes exactly
@@ -112,3 +112,20 @@ Theorem C13_escaped_hier_element_without_heading_converts : forall uri prefix kw
   = OkR (hier_x_nh tag [(EID, cand)] [(EID, cand ++ DUSCORE ++ P1)] n t).
 Proof. exact escaped_hier_element_converts_nh. Qed.
 Print Assumptions C13_escaped_hier_element_without_heading_converts.
+
+
+(* ... and in a crossheading: `CROSSHEADING ` followed by the text with every character behind a backslash converts to the crossheading
+   holding exactly those characters (Proofs/CrossheadingRoundTrip.v, on top of C04_crossheading_converts) *)
+Theorem C13_escaped_crossheading_converts : forall uri prefix t root_meta att_meta,
+  assoc_str uri meta_templates = Some (root_meta, att_meta) ->
+  escapable t ->
+  convert uri (of_string "hier_element") prefix (CH ++ 32 :: esc t ++ [NL])
+  = OkR (El CHT [(EID, candidate prefix CHT (of_string "1"))] [Tx t]).
+Proof. exact escaped_crossheading_converts. Qed.
+Print Assumptions C13_escaped_crossheading_converts.
+
+Example C13_escaped_crossheading_example :
+  convert (of_string "/akn/za/act/2009/1") (of_string "hier_element") (of_string "chp_1")
+          (of_string "CROSSHEADING " ++ esc (of_string "**{{ SEC 1 - \\ }} //x") ++ [NL])
+  = OkR (El CHT [(EID, of_string "chp_1__crossHeading_1")] [Tx (of_string "**{{ SEC 1 - \\ }} //x")]).
+Proof. vm_compute. reflexivity. Qed.
